@@ -36,9 +36,10 @@ ASSUMPTIONS = [
     'forbidden SAME on a never-indexed object: raising, or attributing no data to that object, both accepted',
 ]
 
-CH = {'a': "/'g'/'a'", 'b': "/'g'/'b'", 'c': "/'g'/'c'"}
-TYPE = {'a': 'Int32', 'b': 'Int16', 'c': 'String'}
-ALT = {'a': 'Int8', 'b': 'Int64', 'c': 'Int32'}
+CH = {'a': "/'g'/'a'", 'b': "/'g'/'b'", 'c': "/'g'/'c'", 'd': "/'g'/'d'", 'e': "/'g'/'e'", 'f': "/'g'/'f'"}
+TYPE = {'a': 'Int32', 'b': 'Int16', 'c': 'String', 'd': 'TimeStamp', 'e': 'String', 'f': 'DoubleFloat'}
+# (d, e: a change between two types without a NumPy equivalent; f: between a float and the same float "with unit")
+ALT = {'a': 'Int8', 'b': 'Int64', 'c': 'Int32', 'd': 'String', 'e': 'TimeStamp', 'f': 'DoubleFloatWithUnit'}
 
 
 def enc_of(ch, name):
@@ -49,7 +50,7 @@ def enc_of(ch, name):
     if name == 'F0':
         return ['FULL', 'String', 0, 0] if TYPE[ch] == 'String' else ['FULL', TYPE[ch], 0]
     if name == 'FX':
-        return ['FULL', ALT[ch], 1]
+        return ['FULL', 'String', 1, 2] if ALT[ch] == 'String' else ['FULL', ALT[ch], 1]
     return [name]
 
 
@@ -188,7 +189,11 @@ def check_history(lbls, seed, want_key=False, differential=True, flags=None):
     else:
         kind = forb[0][0]
         outcome = 'raised_as_required'
-        for mode, o in (('eager', oe), ('lazy', ol)):
+        # the same forbidden history with its last segment left open-ended ('length unknown' marker) must not fare better
+        hm = [dict(s_) for s_ in hist]
+        hm[-1]['marker'] = True
+        dm = G.encode(hm, seed=seed, ref=G.interpret(hm, seed=seed, lenient=True))[0]
+        for mode, o in (('eager', oe), ('lazy', ol), ('eager+marker', H.observe(dm, lazy=False)), ('lazy+marker', H.observe(dm, lazy=True))):
             if o[0] == 'raised':
                 continue
             if kind == 'same-without-previous-index':
@@ -363,6 +368,9 @@ def _alphabet(name):
             'A2': ('ab', ['F1', 'F2', 'FX', 'SAME', 'NODATA'], [1, 2], True),
             # declarations that contribute no values: zero-length indexes and segments without any chunk
             'A2z': ('ab', ['F0', 'F1', 'FX', 'SAME', 'NODATA'], [0, 1], False),
+            # type changes between types that have no NumPy type (TimeStamp <-> String) and float <-> float-with-unit
+            'A2n': ('de', ['F1', 'FX', 'SAME'], [1], False),
+            'A2f': ('fa', ['F1', 'FX', 'SAME'], [1], False),
             'A2x': ('ab', ['F1', 'F2', 'FX', 'SAME', 'NODATA'], [1], False),
             'A3s': ('abc', ['F1', 'F2', 'SAME', 'NODATA'], [1], False),
             'A3c': ('abc', ['F1', 'F2', 'SAME', 'NODATA'], [1, 2], False),
@@ -379,7 +387,8 @@ def run(ctx):
     results = []
     # (i) full trees
     # (depth 4 over 13 / 25 labels: histories in which identical segment bytes recur after the meaning of 'same as before' changed)
-    trees = [('A2', 2), ('A2s', 3), ('A2z', 2), ('A2q', 4)] if ctx.tier == 'quick' else [('A2', 2), ('A2x', 3), ('A3r', 2), ('A2z', 2), ('A2r', 4)]
+    trees = [('A2', 2), ('A2s', 3), ('A2z', 2), ('A2q', 4), ('A2n', 2), ('A2f', 2)] if ctx.tier == 'quick' else \
+        [('A2', 2), ('A2x', 3), ('A3r', 2), ('A2z', 2), ('A2r', 4), ('A2n', 3), ('A2f', 3)]
     for aname, depth in trees:
         alpha = _alphabet(aname)
         if depth >= 3:
